@@ -175,6 +175,20 @@ def check_series(vals, shape, scale_checks=True):
             run = max(run, v)
     except Exception as ex:
         msgs.append("series-valued metric raised %r on %s (%s)" % (ex, list(vals), shape))
+    # tracking error against a benchmark that ENDS one observation earlier (published with a lag): only the dates on
+    # which both have a return count - a perfect tracker keeps a tracking error of zero
+    try:
+        if not msgs and len(rets) >= 3 and shape in ("daily", "weekend", "month"):
+            for tag, bv in (("itself", list(vals)), ("the reversed series", list(vals)[::-1])):
+                bshort = pd.Series(bv[:-1], index=pd.DatetimeIndex(stamps[:-1]), name="lagged")
+                rb3 = [b / a - 1 for a, b in zip(bv[:-1], bv[1:-1])]
+                want = math.sqrt(252) * std1([a - b for a, b in zip(rets[:-1], rb3)])
+                got = s.tracking_error(bshort)
+                if not eq(got, want):
+                    msgs.append("tracking_error against %s ending one date earlier = %r, over the common dates it is %r (%s, %s)"
+                                % (tag, float(got), want, list(vals), shape))
+    except Exception as ex:
+        msgs.append("tracking_error (benchmark ending earlier) raised %r" % (ex,))
     # DataFrame with a second (reversed) column
     if not msgs and not (n >= (4 if len(SCALES[0]) == 2 else 5)):
         rv = list(vals)[::-1]
